@@ -1,6 +1,8 @@
 """C06 -- ACL filtering selects exactly the covered lines and nothing else (structural clauses)."""
 import ast
 
+from sa.util import acl_scratch_write
+
 from sa import guards as G
 from sa.flow import GuardMap, Provenance
 from sa.repo import AnchorError, call_name, calls_in, dotted, norm, walk_no_nested, kwarg
@@ -23,6 +25,9 @@ def run(c):
     r4(c)
     r5(c)
     r6(c)
+    r7(c)
+    from rules import c07
+    c07.r6(c, rid="C06.R8")
 
 
 def r1(c, A):
@@ -371,3 +376,32 @@ def r6(c):
     c.check("C06.R6", kinds[0] < ruleloops[0], repo.loc(m, loops[0]), "_find_acl_matches/direct-before-reverse", "candidates are collected rule by rule (direct and reverse match of one rule "
             "together) instead of all direct matches first: with equal (prio, specificity) the reverse match of an earlier rule now precedes the direct match of a later one and "
             "governs the row — its block is kept without the children rules of the direct match", key_text="collection-order")
+
+
+def r7(c):
+    """apply_acl(t, A) is a function of t and A only if matching leaves A as it found it: the compiled ACL is shared (lru_cache) by every row, tree and run of the process"""
+    from sa.effects import Effects
+    repo = c.repo
+    c.rule("C06.R7", "matching leaves the ACL as it found it, in depth: _select_match, match_row_to_acl and _find_acl_matches (with every helper they hand parts of the ACL to, "
+                     "e.g. lib.merge_dicts through its *args) write nothing that is reachable from their `matches` / `rules` arguments — field-insensitive may-mutate analysis: a "
+                     "value stored into a fresh container still aliases the rule it came from — except the scratch field ['attrs']['match']; otherwise the parameters of a "
+                     "rule (cant_delete, generator_names, children) change with the rows filtered before, and apply_acl(t, A) depends on history")
+    m = repo.module(PATCHING)
+    eff = Effects(repo, mode="contents", max_depth=6)
+    for q in ("_select_match", "match_row_to_acl", "_find_acl_matches"):
+        fn = repo.func(PATCHING, q)
+        c.count("functions")
+        mut = eff.mutated_params(m, q, fn)
+        bad = []
+        for p_, sites in sorted(mut.items()):
+            for s_ in sites:
+                wn = s_.root[3]
+                scratch = acl_scratch_write(repo, wn)
+                if not scratch:
+                    bad.append((p_, s_))
+        if bad:
+            p_, s_ = bad[0]
+            c.violated("C06.R7", f"{repo.module(s_.root[0]).rel}:{getattr(s_.root[3], 'lineno', 0)}", f"{q}({p_})", f"{s_.how[:110]}: an object of the compiled ACL reached through `{p_}` is "
+                       "written while a row is matched; every later row (tree, device) filtered with the same cached ACL sees the changed rule", key_text=f"acl-write:{p_}")
+        else:
+            c.holds("C06.R7", repo.loc(m, fn), q, "no write reaches the compiled ACL (scratch field ['attrs']['match'] aside)")
